@@ -76,3 +76,23 @@ Lemma w_late_refutes :
   busy (timeline w_late_ifs w_late_its) = [ (1000145, true, false, false); (1000900, false, true, false) ] /\
   only_known 42 (self7 w_late_ifs w_late_its).
 Proof. exact (conj w_late_timeline w_late_known). Qed.
+
+Lemma w_skipreprobe_known : only_known 46 (self7 w_skipreprobe_ifs w_skipreprobe_its).
+Proof. split; [vm_compute; discriminate|vm_compute; reflexivity]. Qed.
+Lemma w_skipreprobe_timeline :
+  busy (timeline w_skipreprobe_ifs w_skipreprobe_its) =
+  [ (1000222, true, false, false); (1000472, true, false, false); (1000696, true, false, false);
+    (1000722, true, false, false); (1000946, true, false, false); (1001196, true, false, false);
+    (1001471, false, true, false) ].
+Proof. vm_compute. reflexivity. Qed.
+
+(* the instance name (dev-1._t._tcp.local.) is in the question section of the first probe only *)
+Lemma w_skipreprobe_refutes :
+  only_known 46 (self7 w_skipreprobe_ifs w_skipreprobe_its) /\
+  wire_probe_times 2 [100;101;118;45;49;46;95;116;46;95;116;99;112;46;108;111;99;97;108;46]
+                   (d_init w_skipreprobe_ifs) w_skipreprobe_its = [1000222] /\
+  busy (timeline w_skipreprobe_ifs w_skipreprobe_its) =
+  [ (1000222, true, false, false); (1000472, true, false, false); (1000696, true, false, false);
+    (1000722, true, false, false); (1000946, true, false, false); (1001196, true, false, false);
+    (1001471, false, true, false) ].
+Proof. split; [exact w_skipreprobe_known|split; vm_compute; reflexivity]. Qed.
